@@ -343,7 +343,7 @@ def intronic_novel_loci(w, gid, chrom, pos, strand, n_reads=12):
     joined to existing ones.  gid is used verbatim (lower-case ids sort after 'novel_gene_...')."""
     ref = [(pos, pos + 400), (pos + 5000, pos + 5400)]
     inner = [[(pos + 1000, pos + 1300), (pos + 1600, pos + 1900), (pos + 2200, pos + 2500)],
-             [(pos + 3000, pos + 3300), (pos + 3600, pos + 3900), (pos + 4200, pos + 4500)]]
+             [(pos + 3000, pos + 3300), (pos + 3600, pos + 3850), (pos + 4150, pos + 4380)]]     # spans differ: no exact tie of the joining scores
     g = Gene(gid, chrom, strand)
     g.transcripts.append(Transcript(gid + "-201", gid, chrom, strand, ref, True, "long-intron-host"))
     for k, e in enumerate(inner):
